@@ -1,4 +1,4 @@
 SPECIFICATION Spec
-CONSTANTS MaxOctets = 67 BigOctets = {8193, 65537} BoundAlgs = {0, 1, 2, 3, 4, 5, 127, 128, 255} BoundBearers = {0, 1, 30, 31, 32, 33, 63, 64, 128, 255} BoundDirs = {0, 1, 2, 3, 128, 255}
+CONSTANTS MaxOctets = 67 BigOctets = {255, 256, 1023, 1024, 4095, 4096, 8193, 65537} BoundAlgs = {0, 1, 2, 3, 4, 5, 127, 128, 255} BoundBearers = {0, 1, 30, 31, 32, 33, 63, 64, 128, 255} BoundDirs = {0, 1, 2, 3, 128, 255}
 INVARIANTS WellFormed Emit
 CHECK_DEADLOCK FALSE
